@@ -62,7 +62,7 @@ class Cmp:
                 return self.miss(where, "transform function raised %r" % (e,))
             return self.number_loose(got, rv.value, where + " (transform value)")
         if not isinstance(iv, sympy.Expr):
-            return self.miss(where, "expected an expression in parameters %r, got %s %r" % (list(rv.params), type(iv).__name__, iv))
+            return self.miss(where, "expected an expression in parameters %r, got %s" % (list(rv.params), _short(iv)))
         names = sorted(str(s) for s in iv.free_symbols)
         if not set(names) <= set(rv.params):
             return self.miss(where, "expression has symbols %r, written parameters %r" % (names, list(rv.params)))
@@ -73,7 +73,7 @@ class Cmp:
         except P.Abort:
             raise
         except Exception as e:  # noqa
-            return self.miss(where, "cannot evaluate expression %r: %r" % (iv, e))
+            return self.miss(where, "cannot evaluate expression %s: %s" % (_short(iv), type(e).__name__))
         self.number_loose(got, rv.value, where + " (expression value)")
 
     def _symval(self, v):
@@ -87,7 +87,7 @@ class Cmp:
             try:
                 ne = z3.simplify(z3.Not(T.eq(P.as_v(iv), rv)))
             except TypeError:
-                return self.miss(where, "not a number: %r" % (iv,))
+                return self.miss(where, "not a number: %s" % _short(iv))
             if not z3.is_false(ne):
                 self.miss(where, "value differs", ne)
         else:
@@ -220,5 +220,11 @@ class Cmp:
 
 
 def _short(x):
+    if P.is_proxy(x):
+        return "%s (symbolic)" % P.tag_of(x).__name__
+    if isinstance(x, (list, tuple)):
+        return "[%s]" % ", ".join(_short(e) for e in x)
+    if isinstance(x, np.ndarray) and x.dtype == object:
+        return "array%r" % (x.shape,)
     s = "%s %r" % (type(x).__name__, x)
     return s[:120]
